@@ -21,7 +21,7 @@ CONSTANTS Closed,
           Weak     \* set of weakening flags ({} = faithful model); each flag switches one mechanism of
                    \* the implementation off, TLC must then find a counter-example (vacuity test of the
                    \* invariants, source of replay scenarios): "AnyDoneOrder", "CloseBeforeDrain",
-                   \* "SpawnAllThenWait", "SendFirstRemoteOnly", "NoSkipCheck", "SinkOnlyIfDriver" (= F1), "NoDrain" (= F12)
+                   \* "SpawnAllThenWait", "SendFirstRemoteOnly", "NoSkipCheck", "SinkOnlyIfDriver" (= F1), "NoDrain" (= F12), "NoWaitAll" (= F16)
 
 Inst == JsonDeserialize("inst.json")
 
@@ -548,9 +548,12 @@ SinkRecv(port, i) ==
 
 DriverDone == /\ SinkRuns => \A port \in SinkPorts : PortClosed(port)
               /\ Driver # "SINK" => rpc[Driver] = "done"
+\* fix F16: Run waits for every started process (procsDone.Wait()); switched off by "NoWaitAll"
+AllProcsDone == "NoWaitAll" \in Weak \/ (/\ \A n \in CmdRun : rpc[n] = "done"
+                                          /\ \A e \in Emitters : em[e].st = "done")
 
 MainReturn ==
-  /\ Running /\ DriverDone
+  /\ Running /\ DriverDone /\ AllProcsDone
   /\ phase' = "returned"
   /\ UNCHANGED <<q, ups, em, relayed, rpc, ctpc, ctleft, ctgot, ctopen, offer, tasksnil, tk, ts, started, sout, cl,
                  tokens, final, failed, execs, emitted, recvd>>
@@ -605,6 +608,7 @@ C04_Tasks == phase = "returned" => \A n \in CmdRun : Len(tk[n]) = NSets(n)
 C05_NoEarly == phase = "returned" =>
    /\ \A n \in CmdRun : \A k \in DOMAIN ts[n] : ts[n][k] = "done"
    /\ \A n \in CmdRun : offer[n] = <<>> /\ ctpc[n] \notin {"build", "offered"}
+   /\ \A n \in CmdRun : rpc[n] = "done"
    /\ tokens = 0
 C05_Live == <>(phase \in {"returned", "failed"})
 
